@@ -192,7 +192,47 @@ def ex_parsers(repo):
     return out
 
 
-EXTRACTORS = [ex_detect, ex_config, ex_checker, ex_cache, ex_parsers]
+def camel(s):
+    parts = s.split("_")
+    return parts[0] + "".join(x.capitalize() for x in parts[1:])
+
+
+def ex_config_schema(repo):
+    src = non_test(rd(repo, "src/config.rs"))
+    def struct(name):
+        m = re.search(r"((?:#\[[^\]]*\]\s*)*)pub struct " + name + r" \{(.*?)\n\}", src, re.S)
+        attrs, body = m.group(1), m.group(2)
+        rename_all = "camelCase" in attrs
+        if "serde(default" not in attrs:
+            raise ValueError(name + ": container default missing")
+        fields = []
+        for fm in re.finditer(r"((?:\s*#\[[^\]]*\]|\s*///[^\n]*)*)\s*pub (\w+): ([\w<>]+),", body):
+            fattrs, ident, ty = fm.group(1), fm.group(2), fm.group(3)
+            rn = re.search(r'rename = "([^"]+)"', fattrs)
+            fields.append([rn.group(1) if rn else (camel(ident) if rename_all else ident), ident, ty])
+        return fields
+    top = struct("LspConfig"); cache = struct("CacheConfig"); regs = struct("RegistriesConfig"); reg = struct("RegistryConfig")
+    # defaults
+    d_ip = re.search(r"ignore_prerelease: (true|false),", src).group(1)
+    d_en = re.search(r"impl Default for RegistryConfig \{.*?enabled: (true|false)", src, re.S).group(1)
+    if not re.search(r"refresh_interval: DEFAULT_REFRESH_INTERVAL_MS", src):
+        raise ValueError("refresh default")
+    back = non_test(rd(repo, "src/lsp/backend.rs"))
+    m = re.search(r"fn is_registry_enabled.*?match registry_type \{(.*?)\n        \}", back, re.S)
+    arms = re.findall(r"RegistryType::(\w+) => config\.registries\.(\w+)\.enabled", m.group(1))
+    types = non_test(rd(repo, "src/parser/types.rs"))
+    as_str = dict(re.findall(r"RegistryType::(\w+) => " + STR, re.search(r"pub fn as_str.*?\n    \}\n", types, re.S).group(0)))
+    ident_to_key = {f[1]: f[0] for f in regs}
+    reg_keys = [[ident_to_key[ident], as_str[var]] for var, ident in arms]
+    # how the answer is applied
+    sp = re.search(r"fn spawn_fetch_configuration.*?\n    \}\n", back, re.S).group(0)
+    null_default = bool(re.search(r"if config_value\.is_null\(\) \{\s*LspConfig::default\(\)", sp))
+    return {"configTopKeys": [f[0] for f in top], "configCacheKeys": [f[0] for f in cache], "configRegistryKeys": reg_keys,
+            "configRegistryField": [f[0] for f in reg], "configDefaultIgnorePrerelease": d_ip == "true",
+            "configDefaultEnabled": d_en == "true", "configNullIsDefault": null_default}
+
+
+EXTRACTORS = [ex_detect, ex_config, ex_checker, ex_cache, ex_parsers, ex_config_schema]
 
 
 def render(vals):
@@ -218,6 +258,13 @@ def render(vals):
     L.append(f"def sqlStatements : List (String × String) := {pairs(vals['sqlStatements'])}")
     L.append(f"def pragmas : List (String × String) := {pairs(vals['pragmas'])}")
     L.append(f"def transactionalFns : List String := {lean_list(vals['transactionalFns'])}")
+    L.append(f"def configTopKeys : List String := {lean_list(vals['configTopKeys'])}")
+    L.append(f"def configCacheKeys : List String := {lean_list(vals['configCacheKeys'])}")
+    L.append(f"def configRegistryKeys : List (String × String) := {pairs(vals['configRegistryKeys'])}")
+    L.append(f"def configRegistryField : List String := {lean_list(vals['configRegistryField'])}")
+    L.append(f"def configDefaultIgnorePrerelease : Bool := {'true' if vals['configDefaultIgnorePrerelease'] else 'false'}")
+    L.append(f"def configDefaultEnabled : Bool := {'true' if vals['configDefaultEnabled'] else 'false'}")
+    L.append(f"def configNullIsDefault : Bool := {'true' if vals['configNullIsDefault'] else 'false'}")
     L.append(f"def dependencyFields : List String := {lean_list(vals['dependencyFields'])}")
     L.append(f"def dependencyTables : List String := {lean_list(vals['dependencyTables'])}")
     L.append(f"def skipKeys : List String := {lean_list(vals['skipKeys'])}")
